@@ -322,7 +322,9 @@ func (c *Collection) PullID(ctx context.Context, id string, opts ...ReadOption) 
 			select {
 			case <-ctx.Done():
 				return
-			case send <- &ValueChange{ChangeTime: change.ChangeTime, Value: change.NewValue, SeedValue: change.SeedValue, LastSeedValue: change.LastSeedValue}:
+			// the stream of a single item has at most one seed value, which is therefore also the last one:
+			// change.LastSeedValue only says whether this item sorts last among the collection's seeds
+			case send <- &ValueChange{ChangeTime: change.ChangeTime, Value: change.NewValue, SeedValue: change.SeedValue, LastSeedValue: change.SeedValue}:
 			}
 		}
 	}()
